@@ -104,7 +104,7 @@ def look(i, names=(b'x', b'y')):
 
 
 IDS = ['a', 'b', 'c', 'ab', 'a-b', 'A', 'NUMBER', 'b_1', 'zz']
-ATTRS = ['x', 'y', 'title', 'x-y']
+ATTRS = ['x', 'y', 'title', 'x-y', 'X', 'Title']   # names that differ only in letter case are different attributes
 
 
 def rand_pattern(rng, label):
@@ -122,7 +122,7 @@ def rand_entry(rng, ids, label):
     k = rng.random()
     if k < 0.55:
         mid = rng.choice(ids)
-        attrs = [(rng.choice(ATTRS[:3] if rng.random() < 0.8 else ATTRS), rand_pattern(rng, '%sA%d' % (label, j)))
+        attrs = [(rng.choice(ATTRS[:3] if rng.random() < 0.6 else ATTRS), rand_pattern(rng, '%sA%d' % (label, j)))
                  for j in range(rng.choice([0, 0, 1, 2, 3]))]
         val = rand_pattern(rng, label + 'M') if (rng.random() < 0.75 or not attrs) else None
         return ('msg', mid, val, attrs)
